@@ -672,6 +672,18 @@ func (e *evaluator) eval1(v ssa.Value) *term {
 				}
 			}
 		}
+	case *ssa.Function:
+		// a function value / method expression ((*T).M): a call through it is a call of that function
+		// with the receiver as first argument
+		fn := x
+		if fn.Synthetic != "" {
+			if obj, ok := fn.Object().(*types.Func); ok {
+				if m := e.p.Prog.FuncValue(obj); m != nil {
+					fn = m
+				}
+			}
+		}
+		return &term{op: "boundmethod", name: funcID(fn)}
 	case *ssa.FieldAddr, *ssa.IndexAddr, *ssa.Global, *ssa.Alloc:
 		return S("&" + e.path(v))
 	case *ssa.TypeAssert:
